@@ -154,7 +154,10 @@ class Body:
             if p == "*":
                 base = ("deref", base)
             elif "f" in p:
-                base = ("field", base, p["n"] or str(p["f"]))
+                peeled = self._peel_try(base, p, depth, through_vars) if through_vars else None
+                if peeled is None and through_vars and base[0] == "agg" and base[1] in ("tuple", "Tuple") and isinstance(p.get("f"), int) and p["f"] < len(base[2]):
+                    peeled = base[2][p["f"]]   # a component of a tuple built in place
+                base = peeled if peeled is not None else ("field", base, p["n"] or str(p["f"]))
             elif "i" in p:
                 base = ("index", base, self.sym_local(p["i"], depth + 1, through_vars))
             elif "ci" in p:
@@ -164,6 +167,43 @@ class Body:
             else:
                 base = ("proj", base, str(p))
         return base
+
+    def _peel_try(self, base, p, depth, through_vars):
+        """`(Try::branch(r) as Continue).0` where r can only be `Ok(v)` on the way here is v: r is a local assigned `Ok(v)` at one
+        place and `Err(..)` at others (the Result of an inlined helper, or of a match written in place)"""
+        if not (base[0] == "downcast" and base[2] == "Continue" and str(p.get("f")) == "0"):
+            return None
+        c = base[1]
+        if not (c[0] == "call" and (c[1] or "").endswith("Try>::branch") and len(c[2]) == 1):
+            return None
+        r = c[2][0]
+        while r[0] in ("ref", "deref"):
+            r = r[1]
+        if r[0] == "agg" and r[1].endswith("Result::Ok") and len(r[2]) == 1:
+            return r[2][0]
+        l = r[2] if r[0] == "var" else (r[1] if r[0] == "tmp" else None)
+        if l is None or depth > 30:
+            return None
+        oks = []
+        for (bi, si, node) in self.defs().get(l, []):
+            if si == "term":
+                return None
+            rv = node["rv"]
+            if rv["k"] == "agg" and rv["ak"].endswith("Result::Ok") and len(rv["ops"]) == 1:
+                oks.append(rv["ops"][0])
+            elif rv["k"] == "agg" and rv["ak"].endswith("Result::Err"):
+                continue
+            elif rv["k"] == "use" and rv["a"]["k"] in ("copy", "move") and not rv["a"]["pl"]["p"]:
+                # `dest = move _0'` of an inlined helper: follow
+                inner = self._peel_try(("downcast", ("call", c[1], (self.sym_local(rv["a"]["pl"]["l"], depth + 1, False if through_vars is True else through_vars),)), "Continue"), p, depth + 1, through_vars)
+                if inner is None:
+                    return None
+                return inner
+            else:
+                return None
+        if len(oks) == 1:
+            return self.sym_op(oks[0], depth + 1, through_vars)
+        return None
 
     def sym_local(self, l, depth=0, through_vars=False):
         name = self.local_name(l)
